@@ -1,7 +1,7 @@
 """C06: decoded audio is time-aligned with the input, finite, channel-faithful, peak-bounded and quality-bounded.
 Bounded-exhaustive enumeration of a finite parametrised signal family x configurations through the real encoder and
 the real packet-level decoder (harness/c06_quality.c); every member is judged, nothing is sampled."""
-import sys, os, time, json, itertools
+import sys, os, time, json, itertools, subprocess
 import vlib
 
 PID = 'C06'
@@ -18,23 +18,55 @@ LFE_FMAX = 200
 
 UNIQUE = 1.2   # peak / second-largest-local-maximum of the input autocorrelation needed for a channel to be used for alignment
 APERIODIC = ('b2', 'b5', 'sw', 'nz', 'ck')       # classes with a unique correlation peak by construction -> alignment judged
-BANDLIMITED = ('t2', 't5', 'b2', 'b5', 'sw', 'nz')  # classes with an SNR floor (click trains are full-band)
+BANDLIMITED = ('t2', 't2d', 't5', 'b2', 'b5', 'sw', 'nz')  # classes with an SNR floor (click trains are full-band, t2x is over-range)
 
 # ----------------------------------------------------------------------------------------------------------------
-# SNR floor table, dB: FLOOR[class][mode][quality index].  Regression-style bound: measured minimum over the whole
-# thorough family (all rates, channel counts, lengths, parameters; min over channels) on the unchanged tree, minus 6 dB,
-# then made non-decreasing in q by lowering (floor(q) = min over q' >= q).  MEASURED holds the raw minima.
-# (filled in from a measurement run: VERIF_C06_MEASURE=1 bin/check C06 --tier thorough)
-MEASURED = {}
-FLOOR = {}
+# SNR floor table, dB: FLOOR[class][mode][quality index] (mode q = VBR, a = ABR; quality index over QS).
+# Regression-style bound: minimum over the whole quick + thorough family (all rates, channel counts, lengths, parameters;
+# minimum over the non-LFE channels of a member) minus 6 dB, rounded down to 0.1, then made non-decreasing in q by
+# lowering (floor(q) = min over q' >= q).  Measured 2026-09-29 on /repo cb789c6 ("unchanged") and on the same tree with
+# the candidate fix of finding enc_besterror_clamp (v clamped in local_book_besterror); the table uses the smaller of
+# the two, where unchanged-tree members that sit more than 6 dB below their own candidate-fix value, or violate another
+# predicate, are not used (135 of 66780 members: manifestations of that defect, which this check reports).
+# Regenerate with VERIF_C06_MEASURE=1 bin/check C06 --tier thorough (prints MEASURED/FLOOR in this form for one tree).
+# The low ABR values at q=1.0 (8 kHz, top nominal bitrate) are clipping where the managed residue books' range ends.
+MEASURED_CANDIDATE_FIX = {
+    't2': {'q': [9.26, 19.36, 23.48, 29.69, 33.09], 'a': [12.37, 21.73, 26.58, 32.62, 19.33]},
+    't2d': {'q': [13.55, 19.88, 24.46, 30.85, 33.74], 'a': [15.65, 23.15, 26.85, 32.60, 13.02]},
+    't5': {'q': [7.64, 17.82, 22.56, 26.66, 29.44], 'a': [6.32, 20.00, 23.91, 28.54, 25.25]},
+    'b2': {'q': [4.90, 11.75, 16.02, 28.32, 30.54], 'a': [7.32, 19.39, 18.49, 31.62, 33.30]},
+    'b5': {'q': [7.42, 16.82, 17.41, 31.99, 34.70], 'a': [12.24, 23.66, 24.61, 34.64, 36.81]},
+    'sw': {'q': [1.33, 10.51, 15.90, 24.05, 27.61], 'a': [1.86, 10.51, 16.20, 26.96, 20.75]},
+    'nz': {'q': [0.91, 4.78, 6.82, 13.38, 17.55], 'a': [-0.11, 8.96, 11.53, 17.96, 21.07]},
+}
+MEASURED_UNCHANGED = {   # without the 135 defect-affected members
+    't2': {'q': [9.26, 19.36, 23.48, 29.69, 33.09], 'a': [12.37, 21.73, 26.58, 32.62, 16.77]},
+    't2d': {'q': [13.55, 19.88, 24.46, 30.85, 33.74], 'a': [15.65, 23.15, 26.85, 32.60, 14.72]},
+    't5': {'q': [7.64, 17.82, 22.56, 26.66, 29.44], 'a': [6.32, 20.00, 23.91, 28.54, 23.27]},
+    'b2': {'q': [4.90, 11.75, 16.02, 28.32, 30.54], 'a': [7.32, 19.95, 18.49, 31.62, 33.30]},
+    'b5': {'q': [7.42, 16.82, 17.41, 31.99, 34.70], 'a': [12.21, 23.66, 24.61, 34.64, 36.81]},
+    'sw': {'q': [1.33, 10.51, 15.90, 24.05, 27.61], 'a': [0.64, 10.51, 16.20, 26.96, 20.80]},
+    'nz': {'q': [0.91, 4.78, 6.82, 13.38, 17.55], 'a': [-0.11, 8.96, 11.53, 17.96, 21.07]},
+}
+FLOOR = {
+    't2': {'q': [3.2, 13.3, 17.4, 23.6, 27.0], 'a': [6.3, 10.7, 10.7, 10.7, 10.7]},
+    't2d': {'q': [7.5, 13.8, 18.4, 24.8, 27.7], 'a': [7.0, 7.0, 7.0, 7.0, 7.0]},
+    't5': {'q': [1.6, 11.8, 16.5, 20.6, 23.4], 'a': [0.3, 13.9, 17.2, 17.2, 17.2]},
+    'b2': {'q': [-1.1, 5.7, 10.0, 22.3, 24.5], 'a': [1.3, 12.4, 12.4, 25.6, 27.3]},
+    'b5': {'q': [1.4, 10.8, 11.4, 25.9, 28.6], 'a': [6.2, 17.6, 18.6, 28.6, 30.8]},
+    'sw': {'q': [-4.7, 4.5, 9.8, 18.0, 21.6], 'a': [-5.4, 4.5, 10.1, 14.7, 14.7]},
+    'nz': {'q': [-5.1, -1.3, 0.8, 7.3, 11.5], 'a': [-6.2, 2.9, 5.5, 11.9, 15.0]},
+}
 # ----------------------------------------------------------------------------------------------------------------
 
 
-def family(tier):
-    """-> list of (class, sig string)."""
+def family(tier, li=0):
+    """-> list of (class, sig string).  thorough: the dense family at the main length (li=0), the quick family at the two extra lengths."""
     fam = []
-    if tier == 'quick':
-        fam += [('t2', 't:%d,%d:5' % p) for p in itertools.combinations(range(5), 2)]
+    if tier == 'quick' or li > 0:
+        fam += [(c, 't:%d,%d:5%s' % (p[0], p[1], v)) for p in itertools.combinations(range(5), 2) for c, v in (('t2', ''), ('t2d', ':d'), ('t2x', ':x'))]
+        if tier == 'quick':   # loud chords in the upper half of the dense grid as well (same members as in the thorough family)
+            fam += [(c, 't:%d,%d:10%s' % (p[0], p[1], v)) for p in itertools.combinations(range(5, 10), 2) for c, v in (('t2d', ':d'), ('t2x', ':x'))]
         fam += [('t5', 't:%s:6' % ','.join(map(str, s))) for s in itertools.combinations(range(6), 5)]
         fam += [('b2', 'b:%d,%d:4:384:400' % p) for p in itertools.combinations(range(4), 2)]
         fam += [('b5', 'b:0,1,2,3,4:5:512:600')]
@@ -42,7 +74,7 @@ def family(tier):
         fam += [('nz', 'n:%d:64' % s) for s in (1, 2, 3)]
         fam += [('ck', 'c:%d:12:%d' % (s, w)) for s in (1, 2, 3) for w in (1, 5)]
     else:
-        fam += [('t2', 't:%d,%d:12' % p) for p in itertools.combinations(range(12), 2)]
+        fam += [(c, 't:%d,%d:10%s' % (p[0], p[1], v)) for p in itertools.combinations(range(10), 2) for c, v in (('t2', ''), ('t2d', ':d'), ('t2x', ':x'))]
         fam += [('t5', 't:%s:8' % ','.join(map(str, s))) for s in itertools.combinations(range(8), 5)]
         fam += [('b2', 'b:%d,%d:6:%d:%d' % (p[0], p[1], L, pos)) for p in itertools.combinations(range(6), 2) for L in (256, 1024) for pos in (250, 600)]
         fam += [('b5', 'b:%s:6:512:600' % ','.join(map(str, s))) for s in itertools.combinations(range(6), 5)]
@@ -94,15 +126,16 @@ def judge(m, r):
     cls, ch, n = m['cls'], m['ch'], m['n']
     qi = QS.index(m['q'])
     snr, lag, rat, ids, ira = fl(d, 'snr'), [int(x) for x in d['lag'].split(',')], fl(d, 'rat'), [int(x) for x in d['id'].split(',')], fl(d, 'ira')
+    iw = [int(x) for x in d['iw'].split(',')]
     if is51(ch, m['rate']):
         # LFE channel (residue low-passed at ~250 Hz by design): kept in the finiteness / peak / identity tests, but its content
         # (< 200 Hz, or a burst/click whose spectrum the low-pass truncates) can neither resolve a lag to one sample nor carry an SNR bound
         snr, lag, rat, ira = snr[:5], lag[:5], rat[:5], ira[:5]
     pki, pko, dec = float(d['pki']), float(d['pko']), int(d['dec'])
     cplsteps = int(d['cpl'])
-    pf = 3.0 if cplsteps >= 2 else 2.0
+    pf = 3.0 if cplsteps >= 1 else 2.0   # lossy channel coupling may rebuild a channel from the magnitudes of its partners
     info = {'pkratio': pko / pki if pki > 0 else 0.0, 'snr': min(snr), 'snrs': snr, 'rat': min(rat), 'cpl': int(d['cpl']), 'sal': int(d['sal']), 'sh': int(d['sh']), 'lg': int(d['lg']),
-            'xin': float(d['xin']), 'idm': float(d['idm']), 'lag_judged': False, 'lag_channels': 0, 'lag_channels_ambiguous': 0, 'id_judged': False, 'snr_judged': False}
+            'xin': float(d['xin']), 'idm': float(d['idm']), 'lag_judged': False, 'lag_exact': 0, 'lag_channels': 0, 'lag_channels_ambiguous': 0, 'id_judged': False, 'snr_judged': False}
     if d['fin'] != '1':
         v.append(('nonfinite_sample:%s:%s' % (cls, cfg), 'a decoded sample is NaN/Inf: %s' % m['case']))
     if dec < 0.9 * n:
@@ -116,14 +149,16 @@ def judge(m, r):
         info['lag_judged'] = bool(jc)
         info['lag_channels'] = len(jc)
         info['lag_channels_ambiguous'] = len(lag) - len(jc)
+        info['lag_exact'] = sum(1 for c in jc if iw[c] == 0)
         info['rat'] = min([rat[c] for c in jc]) if jc else None
-        if any(lag[c] != 0 for c in jc):
-            v.append(('misaligned:%s:%s' % (cls, cfg), 'cross-correlation peak at lags %s (must be 0 on every channel whose input autocorrelation peak is unique: channels %s), peak/second ratios %s: %s' % (lag, jc, rat, m['case'])))
+        # resolution: lags inside the flat top (>= 98% of the peak) of the input's own autocorrelation cannot be told from 0
+        if any(abs(lag[c]) > iw[c] for c in jc):
+            v.append(('misaligned:%s:%s' % (cls, cfg), 'cross-correlation peak at lags %s (must be 0, tolerance %s = flat top of the input autocorrelation, on every channel whose input autocorrelation peak is unique: channels %s), peak/second ratios %s: %s' % (lag, iw, jc, rat, m['case'])))
     if ch >= 2:
         info['id_judged'] = True
         if ids != list(range(ch)):
             v.append(('channel_permuted:%s:%s' % (cls, cfg), 'best-correlated input channel per output channel %s (must be identity), margin %s: %s' % (ids, d['idm'], m['case'])))
-    if cls in BANDLIMITED and FLOOR:
+    if cls in BANDLIMITED and FLOOR:   # (over-range class t2x: finiteness / peak / identity only)
         info['snr_judged'] = True
         f = FLOOR[cls][m['mode']][qi]
         if min(snr) < f:
@@ -133,7 +168,46 @@ def judge(m, r):
 
 def exe_():
     vlib.build('plain')
-    return vlib.harness('plain', 'c06_quality', extra='-O3')
+    return vlib.harness('plain', 'c06_quality', extra='-O3 -march=native')
+
+
+# ---- differential attribution of the known encoder defect "enc_besterror_clamp" -------------------------------------
+# lib/res0.c local_book_besterror(): a residue value outside the first-stage book's range gets the entry index clamped to qv-1
+# (the POSITIVE maximum, even for a negative value) while the value removed from the residual (p[o]) is not clamped.
+# A violating member is attributed to that defect iff the same member, run against a private copy of res0.c in which v is
+# clamped to [0,qv-1] (everything else identical), no longer violates the predicate.  The variant can only be built while
+# res0.c still has the unclamped form; otherwise nothing is attributed.
+CLAMP_KEY = 'enc_besterror_clamp:violation_cured_by_clamping_v_in_local_book_besterror'
+CLAMP_SITES = ("      int v = (a[--o]-minval+(del>>1))/del;\n", "      int v = a[--o]-minval;\n")
+CLAMP_MAX_RERUN = 800
+
+
+def clamp_variant():
+    try:
+        src = open(os.path.join(vlib.REPO, 'lib', 'res0.c')).read()
+    except OSError:
+        return None
+    a, b = src.find('static int local_book_besterror('), src.find('static int _encodepart(')
+    if a < 0 or b < a:
+        return None
+    body = src[a:b]
+    if any(body.count(x) != 1 for x in CLAMP_SITES) or 'v=qv-1' in body.replace(' ', ''):
+        return None
+    for x in CLAMP_SITES:
+        body = body.replace(x, x + "      if(v<0)v=0; if(v>=qv)v=qv-1;\n")
+    d = os.path.join(vlib.BUILD, 'c06_clamp')
+    os.makedirs(d, exist_ok=True)
+    cpath, opath = os.path.join(d, 'res0_clamped.c'), os.path.join(d, 'res0_clamped.o')
+    new = src[:a] + body + src[b:]
+    if not (os.path.exists(cpath) and open(cpath).read() == new and os.path.exists(opath)):
+        open(cpath, 'w').write(new)
+        # same flags as bin/build.sh uses for the 'plain' library
+        p = subprocess.run(['gcc', '-O2', '-g', '-DNDEBUG', '-w', '-I' + vlib.REPO + '/include', '-I' + vlib.REPO + '/lib', '-c', cpath, '-o', opath], stdout=subprocess.PIPE, stderr=subprocess.STDOUT, text=True)
+        if p.returncode != 0:
+            sys.stderr.write(p.stdout)
+            return None
+    # the object precedes libvorbisall.a on the link line and defines every external symbol of res0.o, so the archive member is not pulled in
+    return vlib.harness('plain', 'c06_quality_clampvariant', extra='-O3 -march=native', srcs=[os.path.join(vlib.ROOT, 'harness', 'c06_quality.c'), opath])
 
 
 def run(tier):
@@ -141,44 +215,52 @@ def run(tier):
     exe = exe_()
     measure = os.environ.get('VERIF_C06_MEASURE') == '1'
     budget = float(os.environ.get('VERIF_C06_BUDGET', (25 * 60 - 150) if tier == 'thorough' else 170))
-    fam = family(tier)
-    # enumeration order: batches = one (length index, class) slice over all configurations; complete batches only
+    # enumeration order: batches = one (length index, class[, rate]) slice over all configurations; only complete batches are run,
+    # the deadline is tested between batches (thorough splits by rate so that no batch is long)
     members = []
     for li in range(len(lengths(tier, 8000))):
-        for cls in ('ck', 'sw', 'nz', 'b2', 'b5', 't2', 't5'):
-            batch = []
-            for rate in RATES:
-                n = lengths(tier, rate)[li]
-                for ch in CHS:
-                    for mode in MODES:
-                        for q in QS:
-                            for c, sig in fam:
-                                if c != cls:
-                                    continue
-                                m = {'cls': cls, 'rate': rate, 'ch': ch, 'mode': mode, 'q': q, 'n': n, 'sig': sig}
-                                m['case'] = mkcase(rate, ch, mode, q, n, sig)
-                                batch.append(m)
-            members.append(((li, cls), batch))
+        fam = family(tier, li)
+        for cls in ('ck', 'sw', 'nz', 't2d', 't2x', 't2', 'b2', 'b5', 't5'):
+            for rgroup in ([RATES] if tier == 'quick' else [[r] for r in RATES]):
+                batch = []
+                for rate in rgroup:
+                    n = lengths(tier, rate)[li]
+                    for ch in CHS:
+                        for mode in MODES:
+                            for q in QS:
+                                for c, sig in fam:
+                                    if c != cls:
+                                        continue
+                                    m = {'cls': cls, 'rate': rate, 'ch': ch, 'mode': mode, 'q': q, 'n': n, 'sig': sig}
+                                    m['case'] = mkcase(rate, ch, mode, q, n, sig)
+                                    batch.append(m)
+                members.append(('%s@len%d%s' % (cls, li, '' if tier == 'quick' else '@%d' % rgroup[0]), batch))
     total = sum(len(b) for _, b in members)
     passed, skipped, nviol = set(), {}, 0
-    stats = {'members': total, 'executed': 0, 'lag_judged': 0, 'lag_channels_judged': 0, 'lag_channels_ambiguous_not_judged': 0, 'lag_judged_by_class': {}, 'min_ratio': 1e9, 'id_judged': 0, 'id_ge3ch': 0, 'id_coupled_stereo': 0,
+    stats = {'members': total, 'executed': 0, 'lag_judged': 0, 'lag_channels_judged': 0, 'lag_channels_judged_with_zero_tolerance': 0, 'lag_channels_ambiguous_not_judged': 0, 'lag_judged_by_class': {}, 'min_ratio': 1e9, 'id_judged': 0, 'id_ge3ch': 0, 'id_coupled_stereo': 0,
              'id_coupled_51': 0, 'snr_judged': 0, 'long_to_short_members': 0, 'short_block_members': 0, 'max_input_crosscorr': 0.0, 'min_id_margin': 1e9,
-             'max_peak_ratio_uncoupled_or_stereo': 0.0, 'max_peak_ratio_multichannel_coupled': 0.0}
+             'max_peak_ratio_uncoupled': 0.0, 'max_peak_ratio_coupled': 0.0}
     meas = {}     # (cls, mode, qi) -> min snr ; also per rate
     series = {}   # (cls, sig, ch, rate, mode, n) -> {qi: snr}
     done_batches, cut = [], []
     samples = []
     ratios = {}
+    rawf = None
+    if measure:
+        os.makedirs(vlib.OUT, exist_ok=True)
+        rawf = open(os.path.join(vlib.OUT, 'c06_measure_%s.jsonl' % tier), 'w')
     peaks = []
-    for (li, cls), batch in members:
+    failing = []
+    for bname, batch in members:
         if time.time() - chk.t0 > budget:
-            cut.append('%s@len%d' % (cls, li))
+            cut.append(bname)
             continue
         if vlib.SEED:
             import random
             random.Random(vlib.SEED).shuffle(batch)
         res = vlib.run_cases(exe, [m['case'] for m in batch], tag='c06')
-        done_batches.append('%s@len%d' % (cls, li))
+        print('  C06 batch %s: %d members, t=%.0fs' % (bname, len(batch), time.time() - chk.t0), file=sys.stderr, flush=True)
+        done_batches.append(bname)
         for m, r in zip(batch, res):
             chk.cov['evaluations'] += 1
             stats['executed'] += 1
@@ -187,14 +269,14 @@ def run(tier):
                 skipped.setdefault((m['rate'], m['mode'], info['why']), 0)
                 skipped[(m['rate'], m['mode'], info['why'])] += 1
                 continue
-            for key, desc in v:
-                nviol += 1
-                chk.violation(key, desc, {'case': m['case'], 'member': m, 'result': (r or '')[:600]})
+            if v:
+                nviol += len(v)
+                failing.append((m, v, (r or '')[:600]))
             if st != 'ok':
                 continue
             if not v:
                 passed.add((m['cls'], m['ch'], m['rate'], m['q'], m['mode']))
-            pk = 'max_peak_ratio_multichannel_coupled' if info['cpl'] >= 2 else 'max_peak_ratio_uncoupled_or_stereo'
+            pk = 'max_peak_ratio_coupled' if info['cpl'] >= 1 else 'max_peak_ratio_uncoupled'
             stats[pk] = max(stats[pk], round(info['pkratio'], 4))
             peaks.append((round(info['pkratio'], 4), info['cpl'], m['case']))
             if m['cls'] in APERIODIC:
@@ -203,6 +285,7 @@ def run(tier):
                 ratios.setdefault(m['cls'], []).append(info['rat'])
                 stats['lag_judged'] += 1
                 stats['lag_channels_judged'] += info['lag_channels']
+                stats['lag_channels_judged_with_zero_tolerance'] += info['lag_exact']
                 stats['lag_judged_by_class'][m['cls']] = stats['lag_judged_by_class'].get(m['cls'], 0) + 1
                 stats['min_ratio'] = min(stats['min_ratio'], info['rat'])
             if info['id_judged']:
@@ -215,7 +298,10 @@ def run(tier):
             stats['snr_judged'] += info['snr_judged']
             stats['long_to_short_members'] += info['sal'] > 0
             stats['short_block_members'] += (info['sh'] > 0 and info['lg'] > 0)
-            if m['cls'] in BANDLIMITED:
+            if rawf:
+                rawf.write(json.dumps({'case': m['case'], 'cls': m['cls'], 'mode': m['mode'], 'q': m['q'], 'rate': m['rate'], 'ch': m['ch'], 'n': m['n'], 'snr': info['snr'],
+                                       'pk': info['pkratio'], 'cpl': info['cpl'], 'rat': info['rat'], 'idm': info['idm'], 'viol': [k.split(':')[0] for k, _ in v]}) + '\n')
+            if m['cls'] in BANDLIMITED and not [k for k, _ in v if not k.startswith('snr_below_floor')]:
                 qi = QS.index(m['q'])
                 for k in ((m['cls'], m['mode'], qi), (m['cls'], m['mode'], qi, m['rate']), (m['cls'], m['mode'], qi, m['rate'], m['ch'])):
                     if info['snr'] < meas.get(k, (1e9,))[0]:
@@ -223,30 +309,70 @@ def run(tier):
                 series.setdefault((m['cls'], m['sig'], m['ch'], m['rate'], m['mode'], m['n']), {})[qi] = info['snr']
             if len(samples) < 12 and (chk.cov['evaluations'] % max(1, total // 12) == 1):
                 samples.append({'case': m['case'], 'class': m['cls'], 'result': (r or '')[:260]})
+    # ---- attribute violations to the known encoder defect by differential re-execution, then emit them
+    attributed, cured_members = 0, []
+    rerun = {}
+    if failing:
+        cexe = clamp_variant()
+        if cexe:
+            sub = [f for f in failing if not f[1][0][0].startswith('executor:')][:CLAMP_MAX_RERUN]
+            out = vlib.run_cases(cexe, [f[0]['case'] for f in sub], tag='c06c')
+            for f, r2 in zip(sub, out):
+                st2, v2, _ = judge(f[0], r2)
+                rerun[f[0]['case']] = set(k for k, _ in v2) if st2 == 'ok' else None
+        stats['clamp_variant_built'] = bool(cexe)
+    for m, v, r in failing:
+        still = rerun.get(m['case'], None)
+        for key, desc in v:
+            if still is not None and key not in still:
+                attributed += 1
+                if len(cured_members) < 40:
+                    cured_members.append('%s  [%s]' % (m['case'], key))
+                chk.violation(CLAMP_KEY, 'lib/res0.c local_book_besterror: out-of-range residue value coded as +max and removed unclamped from the residual; this violation disappears when v is clamped: ' + desc + ' [' + key + ']',
+                              {'case': m['case'], 'member': m, 'result': r})
+            else:
+                chk.violation(key, desc, {'case': m['case'], 'member': m, 'result': r})
+    stats['violations_attributed_to_enc_besterror_clamp'] = attributed
+    stats['members_attributed_to_enc_besterror_clamp'] = cured_members
     # informational: how many (signal, channels, rate, mode, length) series have SNR non-decreasing in q
     mono = sum(1 for s in series.values() if len(s) == len(QS) and all(s[i] <= s[i + 1] for i in range(len(QS) - 1)))
     full = sum(1 for s in series.values() if len(s) == len(QS))
     endsup = sum(1 for s in series.values() if len(s) == len(QS) and s[0] <= s[len(QS) - 1])
     stats.update({'snr_series_complete': full, 'snr_series_monotone_in_q': mono, 'snr_series_q1_ge_q0': endsup})
     if measure:
+        rawf.close()
         for c_, rr in ratios.items():
             rr.sort()
             print('peak/second ratio', c_, 'n', len(rr), 'min %.3f p1 %.3f p10 %.3f med %.3f' % (rr[0], rr[len(rr) // 100], rr[len(rr) // 10], rr[len(rr) // 2]))
         peaks.sort(reverse=True)
         for cp in (0, 1, 4):
             print('top peak ratios cpl=%d:' % cp, [x for x in peaks if x[1] == cp][:6])
-        print('MEASURED minima (class, mode): per q')
+        # the table in source form: measured minima of this run (members with another violation and over-range members excluded),
+        # floor = measured - 6 dB rounded down to 0.1, then made non-decreasing in q by lowering
+        import math
+        print('MEASURED = {')
+        for cls in BANDLIMITED:
+            print("    '%s': {%s}," % (cls, ', '.join("'%s': [%s]" % (mo, ', '.join('%.2f' % meas[(cls, mo, qi)][0] if (cls, mo, qi) in meas else 'None' for qi in range(len(QS)))) for mo in MODES)))
+        print('}')
+        print('FLOOR = {')
+        for cls in BANDLIMITED:
+            rows = []
+            for mo in MODES:
+                f = [math.floor((meas[(cls, mo, qi)][0] - 6.0) * 10) / 10 if (cls, mo, qi) in meas else -99.0 for qi in range(len(QS))]
+                for qi in range(len(QS) - 2, -1, -1):
+                    f[qi] = min(f[qi], f[qi + 1])
+                rows.append("'%s': [%s]" % (mo, ', '.join('%.1f' % x for x in f)))
+            print("    '%s': {%s}," % (cls, ', '.join(rows)))
+        print('}')
         for cls in BANDLIMITED:
             for mode in MODES:
-                row = [meas.get((cls, mode, qi), (None,))[0] for qi in range(len(QS))]
-                print("    '%s/%s': %s," % (cls, mode, json.dumps([None if x is None else round(x, 2) for x in row])))
                 for rate in RATES:
                     rr = [meas.get((cls, mode, qi, rate), (None,))[0] for qi in range(len(QS))]
-                    print('        # %5d: %s' % (rate, ' '.join('%7s' % ('-' if x is None else '%.2f' % x) for x in rr)), ' | '.join(
+                    print('        # %s/%s %5d: %s' % (cls, mode, rate, ' '.join('%7s' % ('-' if x is None else '%.2f' % x) for x in rr)), ' | '.join(
                         ' '.join('-' if meas.get((cls, mode, qi, rate, ch)) is None else '%.0f' % meas[(cls, mode, qi, rate, ch)][0] for qi in range(len(QS))) for ch in CHS))
                 for qi in range(len(QS)):
                     if (cls, mode, qi) in meas:
-                        print('        # worst q=%g: %s' % (QS[qi], meas[(cls, mode, qi)][1]))
+                        print('        # worst %s/%s q=%g: %.2f  %s' % (cls, mode, QS[qi], meas[(cls, mode, qi)][0], meas[(cls, mode, qi)][1]))
     table_ok = bool(FLOOR) and all(FLOOR[c][mo][i] <= FLOOR[c][mo][i + 1] for c in BANDLIMITED for mo in MODES for i in range(len(QS) - 1))
     if stats['min_ratio'] > 1e8:
         stats['min_ratio'] = None
@@ -261,23 +387,28 @@ def run(tier):
     chk.cov['snr_floor_table_dB'] = {c: FLOOR[c] for c in FLOOR}
     chk.cov['distinct_nontrivial'] = len(passed)
     chk.cov['rule'] = (
-        'every member of the finite family {two-tone chords: all pairs of a frequency grid; five-tone chords: all 5-subsets of a grid; Hann-windowed chord bursts; linear sweeps: all ordered pairs of band edges; '
-        'band-limited LCG noise (sums of 32-128 random-phase sinusoids below 0.3 Nyquist); aperiodic LCG click trains (1- and 5-sample clicks)} with per-channel distinct content '
-        f'x channels {CHS} x rates {RATES} x quality {QS} x {{VBR, ABR at the nominal bitrate of that quality}} x lengths ({"0.3 s" if tier == "quick" else "0.3 s, 0.17 s (odd), 0.45 s+37"}); tones/sweeps below min(0.4 Nyquist, encoder lowpass), '
-        'LFE channel of the 5.1 template below 200 Hz. Judged on every member: all samples finite; output peak <= 2 x input peak + 0.05; best lag-0-correlated input channel of every output channel is itself (>=2 channels); '
-        'SNR >= floor(class, mode, q) for the band-limited classes (regression table, non-decreasing in q). ALIGNMENT (arg max of the input/output cross-correlation over all lags -4096..4096 is 0, every channel) is judged only on members with '
-        'aperiodic structure (click trains, sweeps, noise, Hann-windowed bursts): stationary chords have a periodic, ambiguous correlation peak and are NOT used for alignment. '
-        'distinct_nontrivial = distinct (signal class, channels, rate, quality, managed) tuples with at least one member that passed every judged predicate')
+        'every member of the finite family {two-tone chords: all pairs of a frequency grid, each with equal amplitudes, with a dominant near-full-scale tone (:d) and 4x over-range (:x); five-tone chords: all 5-subsets of a grid; '
+        'Hann-windowed chord bursts; linear sweeps: all ordered pairs of band edges; band-limited LCG noise (sums of 32-128 random-phase sinusoids below 0.3 Nyquist); aperiodic LCG click trains (1- and 5-sample clicks)} '
+        f'with per-channel distinct content x channels {CHS} x rates {RATES} x quality {QS} x {{VBR, ABR at the nominal bitrate of that quality}} x lengths '
+        f'({"0.3 s" if tier == "quick" else "0.3 s with the dense grids; 0.17 s (odd) and 0.45 s+37 with the quick grids"}); tones/sweeps below min(0.4 Nyquist, encoder lowpass), LFE channel of the 5.1 template below 200 Hz. '
+        'Judged on every member: all samples finite; output peak <= 2 x input peak + 0.05 (3 x when the mode uses lossy channel coupling); for >=2 channels the best lag-0-correlated input channel of every output channel is itself; '
+        'SNR >= floor(class, mode, q) for the in-range band-limited classes (regression table, non-decreasing in q). ALIGNMENT (arg max over ALL lags -4096..4096 of the input/output cross-correlation is 0) is judged only on members with '
+        'aperiodic structure (click trains, sweeps, noise, Hann-windowed bursts) and there only on channels whose INPUT autocorrelation has a unique peak (peak / second local maximum >= %g, a property of the signal alone); '
+        'lags inside the flat top of the input autocorrelation (>= 98%% of its peak; 0 for all broadband members) count as 0. Stationary chords have a periodic, ambiguous correlation peak and are NOT used for alignment. '
+        'A violating member is re-executed against a variant in which local_book_besterror clamps its value; violations that disappear there carry the key enc_besterror_clamp:... '
+        'distinct_nontrivial = distinct (signal class, channels, rate, quality, managed) tuples with at least one member that passed every judged predicate') % UNIQUE
     chk.assumptions += [
         'finite family only: "for any input signal" is out of reach; nothing is claimed about signals outside the enumerated family',
-        'the SNR floor is a regression-style table (measured minimum on the unchanged tree minus 6 dB, monotone in q); the property only demands that such a quality-dependent, tightening bound exists',
+        'the SNR floor is a regression-style table (measured minimum minus 6 dB, monotone in q; see the comment at FLOOR); the property only demands that such a quality-dependent, tightening bound exists',
+        'the peak factor is 2 (+0.05) without channel coupling and 3 with it: point/lossless coupling rebuilds a channel from its partners, measured maximum 2.7 on legitimately coupled q=0 sweeps',
         'channel identity is judged as "arg max over input channels of the normalised lag-0 correlation is the channel itself", not as a separation bound (lossy coupling may legitimately leak between channels)',
         'ABR members exist only where the bitrate-managed set-up succeeds (the 50-200 kHz template has no bitrate map: ABR at 96000 Hz is not a successfully configured setting and is skipped)',
-        'in the 5.1 template (6 ch, 40-50 kHz) channel 5 is the LFE channel, low-passed at ~250 Hz by design; its test content stays below 200 Hz',
+        'in the 5.1 template (6 ch, 40-50 kHz) channel 5 is the LFE channel, low-passed at ~250 Hz by design; its test content stays below 200 Hz and it is excluded from the lag and SNR predicates',
+        'over-range (:x) members are judged for finiteness, peak, identity only (the residue books clip beyond their range by design)',
         'input and output are compared over the decoded range (the exact sample count is property C04)']
     if not measure:
         chk.guard(table_ok, 'SNR floor table present and non-decreasing in q for every (class, mode)')
-    chk.guard(stats['lag_judged'] >= 1000 and len(stats['lag_judged_by_class']) >= 4, 'alignment judged on >=1000 members from >=4 signal classes, each judged channel having a unique input autocorrelation peak (peak/second-peak >= %g)' % UNIQUE)
+    chk.guard(stats['lag_judged'] >= 1000 and (len(stats['lag_judged_by_class']) >= 4 or cut), 'alignment judged on >=1000 members from >=4 signal classes (fewer classes only when the deadline cut the run), each judged channel having a unique input autocorrelation peak (peak/second-peak >= %g)' % UNIQUE)
     chk.guard(stats['id_ge3ch'] >= 200 and stats['id_coupled_stereo'] >= 50 and stats['id_coupled_51'] >= 10, 'channel identity judged on >=200 members with >=3 channels, >=50 coupled-stereo members and >=10 coupled 5.1 members')
     chk.guard(stats['max_input_crosscorr'] < 0.5, 'input channels carry distinct content (max normalised cross-correlation between input channels < 0.5)')
     chk.guard(stats['long_to_short_members'] >= 100, '>=100 members contained a long->short block transition')
